@@ -231,3 +231,25 @@ Theorem alias_names_sound :
   /\ forallb (fun n => negb (mem_str (alias_name n) (map fst exc_hierarchy))) error_codes = true
   /\ forallb (fun n => alias_exists n) error_codes = true.
 Proof. repeat split; vm_compute; reflexivity. Qed.
+
+(* ---------- the import namespace of the endpoints module (finding F06e, fixed) ---------- *)
+Lemma resolves_ref : forall all ms c, incl ms all -> resolves ms (exception_ref all c) = true.
+Proof.
+  intros all ms c Hincl. unfold exception_ref. destruct (mem_str (cls_name c) all) eqn:E; [reflexivity|].
+  cbn [resolves]. apply negb_true_iff. destruct (mem_str (cls_name c) ms) eqn:M; [|reflexivity].
+  apply mem_str_In in M. apply Hincl in M. apply mem_str_In in M. congruence.
+Qed.
+(* C06_full with the namespace: whatever model classes the module imports (they are model classes of the spec) *)
+Theorem full_ns : forall k s all ms o st, incl ms all -> status_ok st -> C06_spec (call_ns k s all ms o st) st.
+Proof.
+  intros k s all ms o st Hincl Hst. pose proof (full k s o st Hst) as F. unfold call_ns.
+  destruct (transport k st); [exact F|]. destruct F as (c & E & Hc). rewrite E. rewrite (resolves_ref all ms c Hincl).
+  exists c. auto.
+Qed.
+(* what the collision test buys: if colliding names were referenced by name, the witness of F06e would crash *)
+Definition ms_F06e : list str := [alias_name 404].
+Example fixed_F06e :
+  call_ns Custom [op_F06a] ms_F06e ms_F06e op_F06a 404 = Raised (Alias 404) 404 true
+  /\ exception_ref ms_F06e (Alias 404) = Qualified (alias_name 404)
+  /\ call_ns Custom [op_F06a] [] ms_F06e op_F06a 404 = Crashed.
+Proof. repeat split; vm_compute; reflexivity. Qed.
